@@ -321,6 +321,12 @@ def enumerate_cases(tier, seed):
 
     cases = c04.enumerate_cases(tier, seed)
     cases += s3.extra_cases("AMBER")
+    # fixed block (any seed): alcoholic hosts next to a donor, an acceptor and
+    # another alcoholic group, so that lone-pair creation/removal and the
+    # try_both undo paths are exercised in every quick run
+    cases += s3.partner_cases("AMBER", ["LYS", "ASP", "SER"],
+                              hosts=["SER", "THR", "TYR"],
+                              rots=range(0, 24, 2))
     for x in T.AMINO:
         sc = s3.sidechain_heavy(x, "mid")
         if not sc:
